@@ -321,7 +321,7 @@ func init() {
 	// ---- histories (Engine B) ---------------------------------------------------------------------
 	alphabet := []string{"P1.register", "P2.register", "P1.unregister", "P1.alias", "P1.delalias0", "P1.delalias1", "P1.event", "P2.event", "P1.unevent",
 		"P1.link", "P1.monitor", "P2.link", "P1.meta", "P1.normal", "P1.kill", "N.register-P2"}
-	spec := harn.OpSeqSpec{Alphabet: alphabet, DepthQuick: 4, DepthThorough: 5}
+	spec := harn.OpSeqSpec{Alphabet: alphabet, DepthQuick: 4, DepthThorough: 5, NoDedupQuick: 2, NoDedupThorough: 3}
 	spec.Run = func(hist []int, fail func(kind, format string, a ...any)) string {
 		key := ""
 		fails, _ := vsched.RunOnce(10, nodeBody(func(w *World) {
